@@ -17,7 +17,7 @@ TECHNIQUE = ('runtime monitoring: reference-model oracle ((magnitude, exponent '
              'pairs x operations x magnitude classes x operand shapes; '
              'result-type invariant (no quantity object with all-zero '
              'exponents)')
-RULE = ('ordered pairs of 17 dimension classes (7 base, 8 derived, '
+RULE = ('ordered pairs of 18 dimension classes (7 base, 9 derived, '
         'dimensionless number, bare zero) x 14 operations (==,!=,<,<=,>,>=,+,-,'
         '*,/,**k,neg,abs,in_units) x magnitude classes {equal,a<b,a>b,negative,'
         'zero-magnitude,both zero,tiny/huge} x shapes {scalar.scalar, array.array, '
@@ -80,6 +80,9 @@ DIMS = [
     ('velocity', 'm/s', (1, 0, -1, 0, 0, 0, 0)),
     ('frequency', 's^-1', (0, 0, -1, 0, 0, 0, 0)),
     ('sqrt length', 'm^0.5', (0.5, 0, 0, 0, 0, 0, 0)),
+    # a genuinely fractional exponent NEXT TO an integer one (the integer
+    # one is reached inexactly on some routes: 0.6 + 0.3 + 0.1)
+    ('sqrt length x mass', 'm^0.5 kg', (0.5, 1, 0, 0, 0, 0, 0)),
     ('number', None, None),
     ('bare zero', None, None),
 ]
@@ -137,6 +140,16 @@ def unit_by_route(unit, route):
     zeros, float round-off of 0.5*2, ...)."""
     from pgradd.Units import eval_qty
     u = eval_qty(unit)
+    if unit == 'm^0.5 kg':
+        # the fractional factor exactly, the integer factor through decimal
+        # fractions that sum to 1 only up to round-off on odd routes
+        kg = eval_qty('kg')
+        m5 = eval_qty('m^0.5')
+        if route % 2:
+            return m5 * (kg ** 0.6 * kg ** 0.3 * kg ** 0.1)
+        if route % 4 == 2:
+            return (kg ** 0.7 * kg ** 0.3) * m5
+        return u
     r = ROUTES[route % len(ROUTES)]
     if r == 'unit text':
         return u
@@ -511,6 +524,8 @@ _SI = {}
 
 def _si(unit):
     """SI magnitude of one `unit`, from the harness's own reference."""
+    if unit == 'm^0.5 kg':
+        return 1.0
     if unit not in _SI:
         from vmon.props.c10 import parse_own
         from vmon.refs import units as U
